@@ -50,8 +50,10 @@ def gen(c, chunkings):
                     body = K.ctr_hmac_enc(T, p["key"], p["mackey"], p["iv"], p["aad"], m)
                 base = "%s:%s:%s:len%d:tag%d" % (f, cipher, api, ml, tl)
 
-                def case(what, iv=None, aad=None, b=None, touched=1, ch=None, inplace=0):
+                def case(what, iv=None, aad=None, b=None, touched=1, ch=None, inplace=0, taglen=None):
                     q = dict(p)
+                    if taglen is not None:
+                        q["taglen"] = taglen
                     q["iv"] = p["iv"] if iv is None else iv
                     q["aad"] = p["aad"] if aad is None else aad
                     bb = body if b is None else b
@@ -98,6 +100,10 @@ def gen(c, chunkings):
                         case("trunc:%d" % cut, b=body[:len(body) - cut])
                 for extra in (0, 255):
                     case("extend:%d" % extra, b=body + bytes([extra]))
+                # a tag length no GCM / CCM tag has (17, 32 octets): refused, not compared beyond the 16-octet block the implementation computed
+                if f in ("gcm_dec", "ccm_dec") and api == "oneshot" and tl == 16:
+                    for big in (17, 32):
+                        case("taglen%d" % big, b=body + bytes(big - 16), taglen=big)
                 # the boundary between associated data and ciphertext moved (both are changed, their concatenation is not): the last k AAD octets become the first k
                 # ciphertext octets, or the other way round
                 for k in (1, 16):
